@@ -724,7 +724,7 @@ def c08_r12(ctx):
         if a is None:
             continue
         if nd.kind in ("for", "iter_init") and isinstance(a, ast.For) and isinstance(a.iter, ast.Name) and a.iter.id in lazy:
-            conv.append((nd, "the loop draining `%s`" % a.iter.id))
+            conv.append((nd, "the loop draining a lazy index() result"))
         if nd.kind == "iter_init" and isinstance(a, ast.For):
             frags = [a.iter]
         else:
@@ -734,7 +734,7 @@ def c08_r12(ctx):
                 if is_effect(c):
                     eff.append((nd, norm.canon(c.func)))
                 elif is_convert(c):
-                    conv.append((nd, norm.canon(c.func) + "()"))
+                    conv.append((nd, "<field>.%s()" % c.func.attr))      # by role: the receiver's local name is not part of the key
     if len(eff) < 3 or len(conv) < 3:
         raise AnalysisError("add_document: %d effects / %d conversions recognised (expected pool.add, add_vector_items, add_field, "
                             "add_column_value and index, spellable_words, word_values, to_column_value)" % (len(eff), len(conv)))
